@@ -100,3 +100,25 @@ Theorem C03_source_frames :
      "reset_frees_all_but_current"; "reset_empty_is_noop"; "new_chunk_asks_allocator"]%string.
 Proof. repeat (constructor; [vm_compute; reflexivity|]). constructor. Qed.
 Print Assumptions C03_source_frames.
+
+(* ---------- the loop that gives chunks back, as /repo's source has it.  tools/rs2v.py translates the
+   body of dealloc_chunk_list into the statement language of RustSem on every run (LeafActual.src_procs);
+   run on a chunk list of any length — each footer pointing to its predecessor, the oldest to the static
+   sentinel — it calls dealloc exactly once per chunk, newest first, with the data pointer and the
+   layout the footer records, and stops at the sentinel without touching it ---------- *)
+From BV Require Import ConstsActual ChunkWalkOk.
+Theorem C03_source_chunk_list_walk : forall k cs, Forall (fun c => c_foot c <> k_eaddr k) cs ->
+  forall extra tr f0, exists f1,
+    exec src_fns (wfuel (List.length cs) extra) (walk_env k cs f0) tr walk_body
+    = Some (walk_env k [] f1, List.app tr (map (freed k) cs)).
+Proof. exact walk_frees_the_list. Qed.
+
+(* and those calls are what the model reports as freed: every chunk on drop, all but the current one on reset *)
+Theorem C03_walk_is_what_drop_and_reset_report : forall k (b : bump),
+  map freed_block (map (freed k) (chunks b)) = map Some (o_frees (snd (drop_arena k b))) /\
+  (forall c rest, chunks b = c :: rest ->
+     map freed_block (map (freed k) rest) = map Some (o_frees (snd (reset k b)))).
+Proof. intros k b. split; [apply walk_frees_what_drop_reports | intros c rest H; exact (walk_frees_what_reset_reports k b c rest H)]. Qed.
+
+Print Assumptions C03_source_chunk_list_walk.
+Print Assumptions C03_walk_is_what_drop_and_reset_report.
